@@ -312,14 +312,11 @@ fn build_entries(
     let nbase = out.len();
     for (i, b) in bases.iter().enumerate() {
         if let Some(d) = b.dic_form {
-            let mut lim = nbase;
-            if user {
-                // validated against the system size, looked up in the own dictionary: stay inside both
-                lim = lim.min(system.map(|s| s.len()).unwrap_or(0));
-            }
+            let lim = nbase;
             if lim > 0 {
                 let t = ix(d, lim);
-                out[i].dic_form = Some(WRef::Sys(t as u32));
+                // a plain or (in user dictionaries) a U-prefixed number: both name a row of the same lexicon
+                out[i].dic_form = Some(if user && d % 2 == 1 { WRef::User(t as u32) } else { WRef::Sys(t as u32) });
             }
         }
     }
